@@ -52,9 +52,14 @@ def xcanon(x, ver, native_ver=None, binary=False):
         raw = x.value
         if isinstance(raw, bytes):
             try:
-                return {"t": "text", "v": cps(raw.decode("utf-8", "surrogatepass"))}
+                text = raw.decode("utf-8", "surrogatepass")
             except UnicodeDecodeError:
                 return {"t": "text-undecodable", "v": hx(raw)}
+            # "equal in kind and content": the object must *be* that text for its user - same characters, equal to and
+            # hashing like the plain string, found in a set of it
+            if str.__str__(x) != text or len(x) != len(text) or not (x == text) or hash(x) != hash(text) or text not in {x}:
+                return {"t": "text-but-not-usable-as-that-text", "v": cps(text)}
+            return {"t": "text", "v": cps(text)}
         return {"t": "text", "v": cps(str(raw))}
     if t is str:
         if py2file:
